@@ -4,7 +4,7 @@
    expressions under C's declare-before-use rule. *)
 From Coq Require Import List String Ascii ZArith NArith Bool Arith.
 From PDV Require Import Lib.StrUtil Lang.Comment Jinja.Tir Jinja.Interp Jinja.Static Gen.Templates Lang.EnumBody Lang.EnumBodyProofs
-                        Jinja.FragFlags Jinja.FragFlagsObjc Jinja.FragFlagsCli Jinja.FragEnums Jinja.LoopPure Jinja.FragEnums2 Jinja.CounterInit.
+                        Jinja.FragFlags Jinja.FragFlagsObjc Jinja.FragFlagsCli Jinja.FragEnums Jinja.LoopPure Jinja.FragEnums2 Jinja.CounterInit Lang.JniFlags.
 Import ListNotations.
 Open Scope string_scope. Open Scope list_scope.
 
@@ -115,6 +115,18 @@ Theorem C08_bitops_text :
      "return lhs = lhs & rhs"; "return lhs = lhs ^ rhs"] = true.
 Proof. vm_compute. reflexivity. Qed.
 Print Assumptions C08_bitops_text.
+
+(* (3) marshalling: the flags conversion of the JNI support library (JniFlags::flags / JniFlags::create on 32-bit unsigned values, model
+   Lang/JniFlags.v, exercised by J-runtime on the real support library): sets of ordinals below `bits` survive Java -> C++ -> Java and values
+   below 2^bits survive C++ -> Java -> C++, for every flags type with at most 32 ordinary flags *)
+Theorem C08_flags_java_cpp_java : forall ords bits, (bits <= 32)%nat -> Forall (fun o => (o < N.of_nat bits)%N) ords ->
+  forall i, In i (create (flags_of ords) bits) <-> In i ords.
+Proof. exact create_flags_of. Qed.
+Print Assumptions C08_flags_java_cpp_java.
+
+Theorem C08_flags_cpp_java_cpp : forall f bits, (bits <= 32)%nat -> (f < 2 ^ N.of_nat bits)%N -> flags_of (create f bits) = f.
+Proof. exact flags_of_create. Qed.
+Print Assumptions C08_flags_cpp_java_cpp.
 
 (* REFUTED (recorded finding C08-K1): an `all` flag declared before an ordinary flag does not compile in the C family *)
 Theorem C08_all_before_ordinary_refuted :
